@@ -47,7 +47,18 @@ PROPS = {
     "C05": dict(level="exploration", functions=[], lemmas=[], tierb=True),
     "C06": dict(level="exploration", functions=[], lemmas=[], tierb=True),
     "C07": dict(level="exploration", functions=[], lemmas=[], tierb=True),
-    "C09": dict(level="exploration", functions=[], lemmas=[], tierb=True),
+    "C09": dict(
+        level="proof",
+        functions=CORE_SCHEDULE + CORE_DISPATCH + ["Dispatcher.next_operation"],
+        lemmas=[],
+        tierb=True,
+        trusted=[T_OBSERVERS, T_NUM_MACHINES],
+        assumptions=[A_VALID, A_REGIONS,
+                     "the request carries an operation of the dispatcher's instance (requests with foreign operation objects "
+                     "are outside the quantifier)",
+                     "the environment part (SingleJobShopGraphEnv.step for a finished job / ineligible machine) is decided "
+                     "by the bounded run only (numpy/gymnasium objects around the dispatcher call)"],
+    ),
     "C10": dict(level="exploration", functions=[], lemmas=[], tierb=True),
     "C13": dict(level="exploration", functions=[], lemmas=[], tierb=True),
     "C03": dict(level="exploration", functions=[], lemmas=[], tierb=True),
@@ -55,7 +66,19 @@ PROPS = {
     "C11": dict(level="exploration", functions=[], lemmas=[], tierb=True),
     "C12": dict(level="exploration", functions=[], lemmas=[], tierb=True),
     "C14": dict(level="exploration", functions=[], lemmas=[], tierb=True),
-    "C15": dict(level="exploration", functions=[], lemmas=[], tierb=True),
+    "C15": dict(
+        level="proof",
+        functions=["Operation.__eq__", "Operation.__hash__", "ScheduledOperation.__eq__", "Schedule.__eq__",
+                   "JobShopInstance.__eq__", "ScheduledOperation.machine_id", "Schedule.schedule"],
+        lemmas=["equality-is-an-equivalence:Operation", "equality-is-an-equivalence:ScheduledOperation",
+                "equality-is-an-equivalence:Schedule", "equality-is-an-equivalence:JobShopInstance",
+                "equal-operations-hash-equally"],
+        tierb=True,
+        trusted=["CPython list equality = same length and element-wise == (identity shortcut is subsumed by reflexivity)",
+                 "hash(int) is a function of the value"],
+        assumptions=["the other operand is None or an instance of the same class (the isinstance test of a foreign class is "
+                     "the first statement of each __eq__ and returns False; exercised by the bounded run)"],
+    ),
     "C16": dict(level="exploration", functions=[], lemmas=[], tierb=True),
     "C17": dict(level="exploration", functions=[], lemmas=[], tierb=True),
     "C18": dict(level="exploration", functions=[], lemmas=[], tierb=True),
